@@ -7,16 +7,16 @@ VERIF = os.path.dirname(os.path.dirname(os.path.abspath(__file__)))
 ids = [json.loads(l)['id'] for l in open(os.path.join(VERIF, 'properties.jsonl'))]
 TECH = {
  'C01': ('rapidcheck scenario generation + trace invariants at the libc boundary',
-         'Every kill / setxattr / control-file write / pidfd_open of the real BaseKillPlugin is judged against the world model over generated trees, configurations and histories; exploration, not proof.'),
+         'Every kill / setxattr / control-file write / pidfd_open of the real BaseKillPlugin is judged against the world model over generated trees, configurations and histories (incl. multi-tick prekill hooks and re-created victims); exploration, not proof.'),
  'C02': ('rapidcheck + reference model (EngineModel) on the full call log', 'Complete run()/prerun() call log of the real main loop equals the EngineModel for every generated configuration and history.'),
- 'C03': ('rapidcheck + validator search for the documented DFS', 'Observed attempt sequences of the real kill plugins must be producible by the documented victim order (search over tolerance nondeterminism).'),
- 'C04': ('rapidcheck differential (dry vs wet run of one scenario)', 'Two runs of identical generated scenarios are compared at the libc boundary, Stats and kmsg.'),
+ 'C03': ('rapidcheck + validator search for the documented DFS', 'Observed attempt sequences of the real kill plugins must be producible by the documented victim order (search over tolerance nondeterminism); every process of a killed subtree is signalled; cgroup.kill never goes to an emptied cgroup; walks resumed after prekill hooks are judged as one sequence.'),
+ 'C04': ('rapidcheck differential (dry vs wet run of one scenario)', 'Two runs of identical generated scenarios (kill plugins, systemd_restart, prekill hooks, ruleset-level cgroups) are compared at the libc boundary, Stats, kmsg and on the virtual time line.'),
  'C05': ('rapidcheck + EngineModel, virtual clock, boundary-biased tick spacing', 'As C02 with delays, overrides and async completion; ticks land exactly on t+d.'),
- 'C06': ('rapidcheck + EngineModel incl. ActionContext equality across resumes', 'As C02 biased to async pauses; context, uuid class and object identity compared on every resume.'),
+ 'C06': ('rapidcheck + EngineModel incl. ActionContext equality across resumes', 'As C02 biased to async pauses; context, uuid class and object identity compared on every resume; a second campaign suspends real kill plugins on scripted prekill hooks.'),
  'C07': ('rapidcheck + invariants over the interleaved hook/kill trace', 'Scripted prekill hooks (fire/poll/destroy) interleaved with interposed kill(2)/xattr events; priority and pattern model.'),
  'C08': ('rapidcheck + reference predicate over the sample history (virtual clock)', 'Each real detector verdict per tick equals the documented predicate over the whole generated history.'),
  'C09': ('rapidcheck + reference ranking with acceptable set / tolerances', 'First victim of each real kill plugin must lie in the RankModel acceptable set; exact integer thresholds, 64-bit totals.'),
- 'C10': ('exhaustive fault enumeration + rapidcheck multi-fault sampling, crash-resuming driver', 'Every (role x file x mode x timing) fault, host-file fault, missing key, d_type loss and every mid-tick removal point of a baseline; clean termination + containment.'),
+ 'C10': ('exhaustive fault enumeration + rapidcheck multi-fault sampling, crash-resuming driver', 'Every (role x file x mode x timing) fault, host-file fault, missing key (for the whole run or one tick), d_type loss, vanishing subtree and every mid-tick removal point of a baseline; clean termination (per-case watchdog against hangs), identity-aware containment, no fabricated statistic.'),
  'C11': ('rapidcheck stateful histories + per-instance EngineModel on tmpfs', 'Instance set, per-instance state, prerun and init arguments over create/remove/re-create/tag histories; ASan on the discard path.'),
  'C12': ('libFuzzer (config text) + rapidcheck (IR / size grammar vs exact SizeModel) + real binary', 'Reject-or-honour: no exception from compile, documented constraints decide acceptance, exact byte counts, process exit status.'),
  'C13': ('rapidcheck stateful (model-based) + metamorphic reversibility against a second real engine', 'Evaluation order, replacement scope, enablement, counter and hook priority after every operation; remove(T) equals history without T.'),
@@ -26,7 +26,7 @@ TECH = {
  'C17': ('rapidcheck + xattr / counter / kmsg / return-value correspondence per attempt', 'Accounting of every wet and dry attempt of the real kill path, keyed by cgroup identity.'),
  'C18': ('rapidcheck + bounds on every control-file write (kernel model reads limits back)', 'Floor / ceiling / alignment / guards of every senpai write over generated statistics and histories.'),
  'C19': ('rapidcheck concurrent programs + linearizability search, protocol sessions, TSan; exhaustive path lengths (FORTIFY)', 'Histories observed from real threads and sockets; schedules sampled.'),
- 'C20': ('rapidcheck producer/sink schedules with a controllable streambuf, TSan', 'Exactly-once FIFO, bounded backlog, silencing on the real async Log; schedules sampled.'),
+ 'C20': ('rapidcheck producer/sink schedules with a controllable streambuf, TSan', 'Exactly-once FIFO, bounded backlog, silencing on the real async Log; schedules sampled and, in the asan build, widened by entering condition waits late.'),
 }
 NOTE = 'Trusted base: the libc-boundary shim, the SimWorld kernel model on tmpfs, the scripted plugins and the reference model of this property (DESIGN.md section 3); exploration bounded by the generator domains stated in the evidence rule; '
 checks = []
